@@ -18,7 +18,7 @@ RULE = ('full Cartesian product of destination kind (absent, regular file, empty
         'shape (single / "0,1" with first or second blocked / "0-1") x --sort, and single selections again with the trash directory named by --trash-dir; plus an entry whose place gets taken by a directory restored earlier in the same run; plus the same location trashed twice and both indices chosen in one run (parent kept / removed); every point executed '
         'on the real trash-put + trash-restore; non-trivial = the run reached the existence probe '
         '(listing printed and an index chosen), distinct = outcome class x dest x kind x overwrite')
-DESTS = ['absent', 'file', 'file-same-stat', 'file-other-owner', 'emptydir', 'dir', 'lfile', 'ldir', 'ldang']
+DESTS = ['absent', 'file', 'file-same-stat', 'file-other-owner', 'file-readonly', 'emptydir', 'dir', 'lfile', 'ldir', 'ldang']
 SELS = ['single', 'comma-first', 'comma-second', 'range-first', 'range-second']
 SORTS = ['date', 'path', 'none']
 W = '/home/u/w'
@@ -69,7 +69,9 @@ def cases(tier):
 
 
 def plant(W_, path, dest):
-    if dest in ('file', 'file-other-owner'):
+    if dest == 'file-readonly':
+        W_.file(path, 'pre-existing destination without any write permission bit\n', mode=0o444)
+    elif dest in ('file', 'file-other-owner'):
         W_.file(path, 'pre-existing destination\n', mode=0o666)
     elif dest == 'file-same-stat':
         pass        # planted by the caller: same size, mode and mtime as the trashed file, other bytes
